@@ -26,8 +26,11 @@ func (p *c02) Rule() string {
 }
 
 func (p *c02) Directed() []string {
-	return []string{"parent-refs-after-wait", "subflow-waiting-parent-paused", "results-overwritten", "webhook-result-then-wait", "batch-open-ticket-after-wait", "batch-start-session-after-wait", "missing-child-flow-on-reread", "msg-trigger-input-after-wait", "environment-refreshed-on-resume", "contact-refreshed-on-resume", "trigger-params-default-key", "datetime-field-dst-arithmetic", "date-only-field-time-fill", "long-path-visit-count", "dial-waits-resume-limit", "long-localized-category"}
+	return []string{"parent-refs-after-wait", "subflow-waiting-parent-paused", "results-overwritten", "webhook-result-then-wait", "batch-open-ticket-after-wait", "batch-start-session-after-wait", "missing-child-flow-on-reread", "msg-trigger-input-after-wait", "environment-refreshed-on-resume", "contact-refreshed-on-resume", "trigger-params-default-key", "datetime-field-dst-arithmetic", "date-only-field-time-fill", "long-path-visit-count", "dial-waits-resume-limit", "long-localized-category", "stale-references-every-action"}
 }
+
+// histories of up to 120 resumes are executed under several restart masks, each call with a marshal / read / marshal round
+func (p *c02) CaseTimeoutS() int { return 400 }
 
 func (p *c02) Floors(tier string) []string {
 	return []string{"clause.fixed_point", "clause.mask_equal_sprints", "seen.restarts", "seen.subflow_restart", "seen.flow_action_trigger_restart", "seen.results_restart", "seen.batch_restart", "masks_run"}
@@ -146,6 +149,27 @@ func (p *c02) directed(name string) *gen.Scenario {
 		ct := d.Contact()
 		ct["language"] = "spa"
 		return &gen.Scenario{Assets: d.BaseAssets(f), Trigger: d.Manual("A", ct), Resumes: []gen.M{d.MsgResume(0, "x"), d.MsgResume(1, "y")}}
+	case "stale-references-every-action":
+		// every action that holds a reference to an asset, each with the name of an existing asset under a UUID the assets do
+		// not have (a flow imported from another workspace); whatever they record must survive a re-read
+		stale := func(kind, name string) gen.M { return gen.M{"uuid": gen.NamedUUID("stale:" + kind), "name": name} }
+		as := d.BaseAssets(d.Flow("A", "messaging", d.Node("a1", []any{
+			act("s1", "request_optin", gen.M{"optin": stale("optin", "Jokes")}),
+			act("s2", "open_ticket", gen.M{"topic": stale("topic", "Weather"), "body": "help", "result_name": "Ticket"}),
+			act("s3", "call_classifier", gen.M{"classifier": stale("classifier", "Booking"), "input": "@input.text", "result_name": "Intent"}),
+			act("s4", "set_contact_channel", gen.M{"channel": stale("channel", "Android")}),
+			act("s5", "add_contact_groups", gen.M{"groups": []gen.M{stale("group", "Customers")}}),
+			act("s6", "remove_contact_groups", gen.M{"groups": []gen.M{stale("group2", "Testers")}}),
+			act("s7", "add_input_labels", gen.M{"labels": []gen.M{stale("label", "Spam")}}),
+			act("s8", "send_broadcast", gen.M{"text": "hi", "groups": []gen.M{stale("group3", "Testers")}}),
+			act("s9", "start_session", gen.M{"flow": stale("flow", "A"), "groups": []gen.M{stale("group4", "Customers")}, "exclusions": gen.M{}}),
+			act("s10", "enter_flow", gen.M{"flow": stale("flow2", "A")}),
+			d.SendMsg("m", "after @results"),
+		}, nil, d.Exit("a1x", "a2")), d.WaitNode("a2", "a1", nil)))
+		as["channels"] = append(as["channels"].([]gen.M), gen.M{"uuid": gen.NamedUUID("chan:fb"), "name": "Facebook", "address": "2353263", "schemes": []string{"facebook"}, "roles": []string{"send", "receive"}, "features": []string{"optins"}})
+		ct := d.Contact()
+		ct["urns"] = []string{"facebook:1122334455", "tel:+12065551212"}
+		return &gen.Scenario{Assets: as, Trigger: d.MsgTrigger("A", ct, "hello"), Resumes: []gen.M{d.MsgResume(0, "x"), d.MsgResume(1, "y")}}
 	case "msg-trigger-input-after-wait":
 		return &gen.Scenario{Assets: d.BaseAssets(d.Flow("A", "messaging", d.Node("a0", []any{d.SendMsg("m0", "@input @input.urn @input.channel")}, nil, d.Exit("a0x", "a1")), d.WaitNode("a1", "a2", sp("a2")), d.Node("a2", []any{d.SendMsg("m", "@input @input.text @input.created_on @(json(input)) @trigger.keyword @resume.type")}, nil, d.Exit("a2x", "a1")))),
 			Trigger: d.MsgTrigger("A", nil, "start now"), Resumes: []gen.M{d.MsgResume(0, "x"), d.Timeout(1), d.MsgResume(2, "z")}}
@@ -194,7 +218,7 @@ func (p *c02) execute(res *fw.Result, scen *gen.Scenario, seed int64, mask uint6
 			}
 		}
 		if rec.OK() && rn.Waiting() {
-			if mask&(1<<uint(call)) != 0 {
+			if mask&(1<<(uint(call)%64)) != 0 { // histories longer than 64 calls reuse the mask's bits
 				if err := rn.Restart(); err != nil {
 					sp.err = "restart failed: " + err.Error()
 				} else {
@@ -264,14 +288,32 @@ func (p *c02) runScen(res fw.Result, scen *gen.Scenario, c fw.Case, r *fw.Rand) 
 		k = 6
 	}
 	var masks []uint64
-	if c.Tier == "thorough" {
-		for m := uint64(1); m < 1<<uint(len(ref)); m++ {
-			if len(ref) <= 6 || m == (1<<uint(len(ref)))-1 || r.Chance(64.0/float64(uint64(1)<<uint(len(ref)))) {
-				masks = append(masks, m)
-			}
+	all := ^uint64(0)
+	if len(ref) < 64 {
+		all = (uint64(1) << uint(len(ref))) - 1
+	}
+	switch {
+	case c.Tier == "thorough" && len(ref) <= 6:
+		for m := uint64(1); m <= all; m++ {
+			masks = append(masks, m)
 		}
-	} else {
-		all := (uint64(1) << uint(len(ref))) - 1
+	case c.Tier == "thorough":
+		// all-ones, one restart only (at each of the first waits), and sampled masks; fewer for long histories (cost ~ calls x masks)
+		n := 64
+		switch {
+		case len(ref) > 60:
+			n = 1
+		case len(ref) > 24:
+			n = 6
+		}
+		masks = []uint64{all, 1, 2, 4}
+		if len(ref) > 60 {
+			masks = []uint64{all, 1}
+		}
+		for i := 0; i < n; i++ {
+			masks = append(masks, r.U64()&all)
+		}
+	default:
 		masks = []uint64{all, r.U64() & all, r.U64() & all, 1}
 	}
 	feat := scenFeatures(scen)
